@@ -6,7 +6,7 @@ Copyright 2020, 2021 William W. Kimball, Jr. MBA MSIS
 """
 import sys
 from os.path import basename
-from typing import Any, Dict, List, Set, Tuple, Union
+from typing import Any, Dict, List, Optional, Set, Tuple, Union
 import json
 from io import StringIO
 from pathlib import Path
@@ -642,10 +642,23 @@ class Merger:
                 # re-definitions.
                 Anchors.replace_anchor(self.data, lhs_anchor, rhs_anchor)
 
+    def _place_merge_result(
+        self, insert_at: YAMLPath, lhs: Any, merged_data: Any,
+        node_coord: Optional[NodeCoords]
+    ) -> None:
+        """Put a merge result where the LHS node it supersedes is held."""
+        if insert_at.is_root:
+            self.data = merged_data
+        elif (merged_data is not lhs
+              and node_coord is not None
+              and isinstance(node_coord.parent, (CommentedMap, CommentedSeq))
+        ):
+            node_coord.parent[node_coord.parentref] = merged_data
+
     def _insert_dict(
         self, insert_at: YAMLPath,
         lhs: Union[CommentedMap, CommentedSeq, CommentedSet],
-        rhs: CommentedMap
+        rhs: CommentedMap, node_coord: Optional[NodeCoords] = None
     ) -> bool:
         """Insert an RHS dict merge result into the LHS document."""
         merge_performed = False
@@ -696,14 +709,13 @@ class Merger:
             .format(lhs.tag.value, rhs.tag.value))
         lhs.yaml_set_tag(rhs.tag.value)
 
-        if insert_at.is_root:
-            self.data = merged_data
+        self._place_merge_result(insert_at, lhs, merged_data, node_coord)
         return merge_performed
 
     def _insert_list(
         self, insert_at: YAMLPath,
         lhs: Union[CommentedMap, CommentedSeq, CommentedSet],
-        rhs: CommentedSeq
+        rhs: CommentedSeq, node_coord: Optional[NodeCoords] = None
     ) -> bool:
         """Insert an RHS list merge result into the LHS document."""
         merge_performed = False
@@ -741,14 +753,13 @@ class Merger:
             .format(lhs.tag.value, rhs.tag.value))
         lhs.yaml_set_tag(rhs.tag.value)
 
-        if insert_at.is_root:
-            self.data = merged_data
+        self._place_merge_result(insert_at, lhs, merged_data, node_coord)
         return merge_performed
 
     def _insert_set(
         self, insert_at: YAMLPath,
         lhs: Union[CommentedMap, CommentedSeq, CommentedSet],
-        rhs: CommentedSet
+        rhs: CommentedSet, node_coord: Optional[NodeCoords] = None
     ) -> bool:
         """Insert an RHS list merge result into the LHS document."""
         merge_performed = False
@@ -786,8 +797,7 @@ class Merger:
             .format(lhs.tag.value, rhs.tag.value))
         lhs.yaml_set_tag(rhs.tag.value)
 
-        if insert_at.is_root:
-            self.data = merged_data
+        self._place_merge_result(insert_at, lhs, merged_data, node_coord)
         return merge_performed
 
     def _insert_scalar(
@@ -912,15 +922,15 @@ class Merger:
                     " destination.", insert_at)
             elif isinstance(rhs, CommentedMap):
                 merge_performed = self._insert_dict(
-                    insert_at, target_node, rhs)
+                    insert_at, target_node, rhs, node_coord)
             elif isinstance(rhs, CommentedSeq):
                 # The RHS document root is a list
                 merge_performed = self._insert_list(
-                    insert_at, target_node, rhs)
+                    insert_at, target_node, rhs, node_coord)
             elif isinstance(rhs, CommentedSet):
                 # The RHS document is a set
                 merge_performed = self._insert_set(
-                    insert_at, target_node, rhs)
+                    insert_at, target_node, rhs, node_coord)
             else:
                 # The RHS document root is a Scalar value
                 merge_performed = self._insert_scalar(
